@@ -553,7 +553,15 @@ func hangReproduces(bin, pkgDir, file string) bool {
 	cmd.Dir = pkgDir
 	cmd.Env = append(goEnv(), "VERIF_REPLAY="+file, "VERIF_DIR="+verifDir)
 	_ = cmd.Run()
-	return ctx.Err() == context.DeadlineExceeded
+	if ctx.Err() != context.DeadlineExceeded {
+		return false
+	}
+	// killed after 120 s of wall clock: it only counts as non-termination when the process really computed
+	// for most of that time (a starved process, a paused VM or a stepped clock is not a hang)
+	if st := cmd.ProcessState; st != nil {
+		return st.UserTime() > 60*time.Second
+	}
+	return false
 }
 
 func merge(id, tier string, seed int64, ps propSpec, outDir string, n int) map[string]any {
